@@ -219,7 +219,17 @@ def selector(F):
         return r
     want = {"IdealGas": {"ideal"}, "Residual": {"residual"}, "Total": {"ideal", "residual"}}
     # --- State::contributions(ideal_gas, residual, contributions)
-    bs = [b for b in F.bodies if b.path.endswith("state::residual_properties::<impl state::State<E>>::contributions")]
+    # identified by its shape, not by its name: a function of feos-core taking one `Contributions` selector and two values of
+    # one type and returning that type (today `State::contributions(ideal_gas, residual, contributions)`)
+    def _is_combinator(b_):
+        if b_.is_closure() or not b_.path.startswith("feos_core::state") or "::tests::" in b_.path:
+            return False
+        tys = [b_.lty(l)["s"] for l in range(1, b_["arg_count"] + 1)]
+        sel_ = [x for x in tys if x.endswith("Contributions")]
+        rest = [x for x in tys if not x.endswith("Contributions")]
+        return len(sel_) == 1 and len(rest) == 2 and rest[0] == rest[1] == (b_.lty(0) or {}).get("s")
+    bs = [b for b in F.bodies if _is_combinator(b)]
+    combinators = {b.path for b in bs}
     if not bs:
         r.fail("selector|contributions|missing", "-", "State::contributions not found")
     else:
@@ -231,6 +241,8 @@ def selector(F):
             r.fail("selector|contributions|signature", b.file_line(), "State::contributions: unexpected signature")
         else:
             role = {q[0]: "ideal", q[1]: "residual"}
+            if "res" in (b.lname(q[0]) or "") and "ideal" in (b.lname(q[1]) or ""):
+                role = {q[0]: "residual", q[1]: "ideal"}
             for vi, v in enumerate(variants):
                 reach = consistent_reach(b, defs, {sel[0]: str(vi)})
                 got = set()
@@ -459,12 +471,17 @@ def selector(F):
     for b in F.bodies:
         defs = None
         for bi, t in b.calls():
-            if not callee(t)[0].endswith("state::State<E>>::contributions") or len(t["args"]) != 3:
+            cb_ = F.callee_body(t)
+            if cb_ is None or cb_.path not in combinators or len(t["args"]) != 3:
                 continue
             defs = defs or Defs(b)
             ncall += 1
             names = []
-            for a in t["args"][:2]:
+            # the two value arguments in the order (ideal gas, residual), wherever the selector sits in the signature
+            vpos = [i for i in range(3) if not cb_.lty(i + 1)["s"].endswith("Contributions")]
+            if "res" in (cb_.lname(vpos[0] + 1) or "") and "ideal" in (cb_.lname(vpos[1] + 1) or ""):
+                vpos = vpos[::-1]
+            for a in (t["args"][vpos[0]], t["args"][vpos[1]]):
                 names.append(_callees_behind(F, b, defs, a))
             owner = b.path.split("::")[-2 if b.is_closure() else -1] if "::" in b.path else b.path
             iid = "selector|caller|%s" % (b.path.split("::{closure")[0].split("::")[-1])
